@@ -269,7 +269,8 @@ def _class_reps(av: Any) -> List[str]:
             if "NOT" in name:
                 reps.append("x")
             elif "DIGIT" in name:
-                reps.extend(["0", "7"])
+                # \d also matches non-ASCII decimal digits (no re.ASCII flag in this package)
+                reps.extend(["0", "7", "\u0663"])
             elif "SPACE" in name:
                 reps.append(" ")
             elif "WORD" in name:
@@ -284,7 +285,7 @@ def _class_reps(av: Any) -> List[str]:
     for r in reps:
         if r not in out:
             out.append(r)
-    return out[:6] or ["x"]
+    return out[:8] or ["x"]
 
 
 def shapes(seq: Any, cap: int = 600) -> List[str]:
